@@ -4,7 +4,7 @@ from simple import Simple
 
 S = Simple("C03", "hashmac", "hashmac.cpp",
            lambda tier: hb.quick_cfgs() if tier == "quick" else hb.five_backends(),
-           lambda tier: [("c03_hash", 40000 if tier == "quick" else 600000, 100)],
+           lambda tier: [("c03_hash", 150000 if tier == "quick" else 1500000, 100)],
            "Case = (mode in hash/hasha/xof/xofa/xof_fixed/xofa_fixed/cxof/cxofa, message <= 3000 B with boundary-mixture lengths, "
            "squeeze length 0..4096 incl. non-multiples of 8, declared length in {0,1..64,32,33,2^29-1,2^29,2^29+5,2^32,SIZE_MAX,...}, "
            "function name of 0..80 chars (classes 0, <=32, 31/32/33, >32; NULL or \"\" when empty), customisation 0..100 B). Oracle: "
